@@ -6,7 +6,7 @@ import hashlib, json, os, shutil, subprocess
 import vlib, gen_config as G
 
 NAMES = ["a/f.txt", "a/g.txt", "a/sub/h.rs", "b/x y.txt", "b/ünï.txt", 'c/q"uote.txt', "c/back\\slash.txt",
-         "c/tab\there.txt", "d/plain", "d/deep/er/file.c", "top.txt", "ign/skipped.txt", "a/日本.txt", "b/z.txt"]
+         "c/tab\there.txt", "d/plain", "d/deep/er/file.c", "top.txt", "ign/skipped.txt", "a/日本.txt", "b/z.txt", "a/big.bin"]
 CFG = {"targets": [{"path": "a"}, {"path": "b", "uses": ["d/deep"]}, {"path": "c", "ignores": ["c/tab\there.txt"]}, {"path": "a/sub"}]}
 
 class Repo:
@@ -25,8 +25,8 @@ class Repo:
     def fresh_content(self, rng, base=None):
         self.serial += 1
         lines = ["line %d of generation %d" % (i, self.serial if i % 9 == 0 else 0) for i in range(60)]
-        if base is not None:   # similar to an existing file (>50% shared) so that rename detection would fire
-            lines = base.decode().splitlines()[:55] + ["edit %d" % self.serial]
+        if base is not None and len(base) < 100000:   # similar to an existing file (>50% shared) so that rename detection would fire
+            lines = base.decode("utf-8", "replace").splitlines()[:55] + ["edit %d" % self.serial]
         return ("\n".join(lines) + "\n").encode()
     def cid_of_bytes(self, data):
         blob = hashlib.sha1(b"blob %d\0" % len(data) + data).hexdigest()
@@ -77,7 +77,7 @@ class Repo:
     def apply(self, rng, op=None):
         r = self.repo
         existing = [n for n in NAMES if os.path.isfile(os.path.join(r, n))]
-        op = op or rng.choice(["write", "write", "write", "modify", "delete", "mv", "gitmv", "add", "addall", "rmcached", "commit", "commit", "empty"])
+        op = op or rng.choice(["write", "write", "write", "modify", "delete", "mv", "gitmv", "add", "addall", "rmcached", "commit", "commit", "empty", "big", "bigtail", "bigtail"])
         if op == "bulk":
             # many new files at once: more than two analysis batches (50), an odd number of them
             k = rng.choice([101, 113, 150, 127])
@@ -87,6 +87,16 @@ class Repo:
                 open(os.path.join(r, d, "%s %03d.txt" % (rng.choice(["f", "é", "z z"]), i)), "wb").write(b"bulk %d %d\n" % (self.serial, i))
             self.serial += 1
             return ("bulk", d, k)
+        if op == "big":
+            # a file larger than any read buffer (3 MiB); a later "bigtail" changes only bytes far beyond the first megabytes
+            import random as _r
+            data = _r.Random(self.serial).randbytes(3 * 1024 * 1024 + 17); self.serial += 1
+            os.makedirs(os.path.join(r, "a"), exist_ok=True)
+            open(os.path.join(r, "a/big.bin"), "wb").write(data); return ("big", "a/big.bin")
+        if op == "bigtail" and os.path.isfile(os.path.join(r, "a/big.bin")) and os.path.getsize(os.path.join(r, "a/big.bin")) > 2600000:
+            with open(os.path.join(r, "a/big.bin"), "r+b") as f:
+                f.seek(2600000); f.write(b"tail edit %d" % self.serial)
+            self.serial += 1; return ("bigtail", "a/big.bin")
         if op == "empty":
             # a zero-length file: its checksum must still differ from the empty checksum that stands for "no such file"
             n = rng.choice(NAMES); os.makedirs(os.path.dirname(os.path.join(r, n)) or r, exist_ok=True)
@@ -222,6 +232,14 @@ def scenario(ctx, sseed, focus):
                 if rng.random() < 0.25: c07_stale_round(ctx, repo, rng, trail)
                 else: c07_round(ctx, repo, rng, trail)
                 continue
+            if focus == "C02" and rng.random() < 0.08:
+                # a file larger than any read buffer is recorded as pending, then only its far tail changes
+                trail.append(list(repo.apply(rng, "big")))
+                do_update(ctx, repo, rng, trail, focus, pending=True)
+                eval_changes(ctx, repo, {}, focus, list(trail))
+                trail.append(list(repo.apply(rng, "bigtail")))
+                eval_changes(ctx, repo, {}, focus, list(trail))
+                continue
             trail.append(list(repo.apply(rng, "bulk" if (focus == "C02" and rng.random() < 0.12) else None)))
             opts = {}
             k = rng.random()
@@ -283,7 +301,7 @@ def c07_round(ctx, repo, rng, trail):
     edited = set()
     r = repo.repo
     for _ in range(rng.randint(1, 4)):
-        kind = rng.choice(["create", "modify", "delete", "create_empty", "truncate"])
+        kind = rng.choice(["create", "modify", "delete", "create_empty", "truncate", "bigtail"])
         existing = [n for n in NAMES if os.path.isfile(os.path.join(r, n)) and not n.startswith("ign/")]
         committed = set(p.decode("utf-8", "replace") for p, _ in repo.tree_of(new["id"]))
         if kind == "create":
@@ -291,6 +309,13 @@ def c07_round(ctx, repo, rng, trail):
             if not cand: continue
             n = rng.choice(cand); os.makedirs(os.path.dirname(os.path.join(r, n)) or r, exist_ok=True)
             open(os.path.join(r, n), "wb").write(repo.fresh_content(rng))
+        elif kind == "bigtail":
+            bp = os.path.join(r, "a/big.bin")
+            if not (os.path.isfile(bp) and os.path.getsize(bp) > 2600000) or "a/big.bin" in edited: continue
+            n = "a/big.bin"
+            with open(bp, "r+b") as f:
+                f.seek(2600000 + rng.randrange(1000)); f.write(b"novel tail %d" % repo.serial)
+            repo.serial += 1
         elif kind == "create_empty":
             # never existed at update time -> now exists with zero length (a state it never had)
             cand = [n for n in NAMES if not os.path.exists(os.path.join(r, n)) and not n.startswith("ign/") and n not in edited and n not in committed and n not in repo.ever_empty]
